@@ -15,13 +15,13 @@ from mc import wsh
 
 EVENTS = ["local_close", "local_close_code", "local_write", "peer_close_empty", "peer_close_1000",
           "peer_close_reason", "peer_close_bad_utf8", "peer_close_1byte", "peer_data", "peer_pong", "peer_eof",
-          "peer_half_frame_eof", "timer", "release"]
+          "peer_half_frame_eof", "timer", "release", "tick"]
 PEER_CLOSES = {"peer_close_empty": b"", "peer_close_1000": struct.pack("!H", 1000),
                "peer_close_reason": struct.pack("!H", 4000) + "réason".encode(),
                "peer_close_bad_utf8": struct.pack("!H", 4001) + b"\xff\xfe", "peer_close_1byte": b"\x03"}
 
 
-def run(ch, role, pings, gated, depth):
+def run(ch, role, pings, gated, depth, preamble=()):
     from tornado.websocket import WebSocketClosedError
     with World() as w:
         settings = {"websocket_ping_interval": 10, "websocket_ping_timeout": 4} if pings else {}
@@ -58,7 +58,7 @@ def run(ch, role, pings, gated, depth):
                 except Exception as e:
                     return "raised:" + type(e).__name__
             target = s.handler if role == "server" else s.conn
-            for step in range(depth):
+            for step in range(depth + len(preamble)):
                 enabled = []
                 for e in EVENTS:
                     if e.startswith("peer_") and st["peer_eof"]:
@@ -73,10 +73,17 @@ def run(ch, role, pings, gated, depth):
                         continue
                     if e == "peer_data" and st["data_sent"] >= 2:
                         continue
+                    if e == "tick" and st.get("ticks", 0) >= 2:
+                        continue
                     enabled.append(e)
                 if not enabled:
                     break
-                ev = enabled[ch.choose(len(enabled), "event")]
+                if step < len(preamble):
+                    ev = preamble[step]          # fixed prologue (not a choice point)
+                    if ev not in enabled:
+                        break
+                else:
+                    ev = enabled[ch.choose(len(enabled), "event")]
                 res = None
                 closed_before = s.closed
                 if ev == "local_close":
@@ -106,6 +113,10 @@ def run(ch, role, pings, gated, depth):
                     sock.feed_eof()
                 elif ev == "timer":
                     w.fire_timer()
+                elif ev == "tick":
+                    # two seconds pass (timers that become due on the way fire)
+                    st["ticks"] = st.get("ticks", 0) + 1
+                    w.advance(2.0)
                 elif ev == "release":
                     for g in gates:
                         if not g.done():
@@ -115,6 +126,10 @@ def run(ch, role, pings, gated, depth):
                 for f in new:
                     frames_log.append((step, f["opcode"], f["payload"]))
                 trace.append((ev, res, [f["opcode"] for f in new], s.closed))
+                if st.get("t_close") is None and any(f["opcode"] == 8 for f in new):
+                    st["t_close"] = w.loop.vtime
+                if st.get("closed_at") is None and s.closed:
+                    st["closed_at"] = w.loop.vtime
             # final quiescence: release every gate (new ones may appear as queued frames get processed)
             for _ in range(10):
                 pend = [g for g in gates if not g.done()]
@@ -124,7 +139,18 @@ def run(ch, role, pings, gated, depth):
                     g.set_result(None)
                 w.pump()
             closed_before_timers = s.closed
-            w.run_all_timers(30)
+            for _ in range(30):
+                if st.get("closed_at") is None and s.closed:
+                    st["closed_at"] = w.loop.vtime
+                if w.loop.next_timer() is None:
+                    break
+                w.fire_timer()
+                for f in s.take_frames():
+                    frames_log.append((99, f["opcode"], f["payload"]))
+                    if st.get("t_close") is None and f["opcode"] == 8:
+                        st["t_close"] = w.loop.vtime
+            if st.get("closed_at") is None and s.closed:
+                st["closed_at"] = w.loop.vtime
             w.pump()
             for f in s.take_frames():
                 frames_log.append((99, f["opcode"], f["payload"]))
@@ -138,7 +164,7 @@ def run(ch, role, pings, gated, depth):
             else:
                 closes = [(s.conn.close_code, s.conn.close_reason)] * msgs.count(None)
                 msgs = [m for m in msgs if m is not None]
-            return {"gated": gated, "trace": trace, "frames": frames_log, "closed": s.closed, "closed_before_timers": closed_before_timers,
+            return {"t_close": st.get("t_close"), "closed_at": st.get("closed_at"), "gated": gated, "trace": trace, "frames": frames_log, "closed": s.closed, "closed_before_timers": closed_before_timers,
                     "closes": closes, "messages": msgs, "late_write": late_write,
                     "errs": [str(c.get("message"))[:100] for c in w.loop_errors()],
                     "logs": [(r[1], r[2][:70], r[3]) for r in w.logs.records if r[1] in ("ERROR", "CRITICAL")]}
@@ -231,6 +257,10 @@ def judge(role, pings, o):
         extra = [m for m in o["messages"] if m.encode() not in sent_before]
         if extra:
             bad.append(("message-delivered-after-peer-close", "delivered %r after the peer's close frame" % extra))
+    # the closing timeout: at most 5 s after our close frame the TCP connection is gone
+    if o.get("t_close") is not None and o.get("closed_at") is not None and o["closed_at"] > o["t_close"] + 5.0 + 1e-6:
+        bad.append(("teardown-later-than-closing-timeout", "close frame sent at t=%.3f, socket closed at t=%.3f (> 5 s later)"
+                    % (o["t_close"], o["closed_at"])))
     if o["errs"]:
         bad.append(("loop-exception", repr(o["errs"][:1])))
     for l in o["logs"]:
@@ -262,22 +292,26 @@ class C16(Check):
             for pings in (False, True):
                 for gated in ((False, True) if role == "server" else (False,)):
                     for first in range(len(EVENTS)):
-                        parts.append((role, pings, gated, first))
+                        parts.append((role, pings, gated, first, ()))
+                    if pings and not gated:
+                        # after the keep-alive ping has timed out (Tornado closed on its own)
+                        for first in range(len(EVENTS)):
+                            parts.append((role, pings, gated, first, ("timer", "timer")))
         return parts
 
     def run_partition(self, part, tier, st):
-        role, pings, gated, first = part
+        role, pings, gated, first, preamble = part
         depth = 3 if tier == "quick" else 4
         if gated or pings:
             depth = min(depth, 3)
 
         def harness(ch):
-            return run(ch, role, pings, gated, depth)
+            return run(ch, role, pings, gated, depth, preamble)
 
         def on_exec(ch, o):
             st.ev()
             st.transitions += len(ch.trace)
-            key = h((role, pings, gated, tuple(ch.choices())))
+            key = h((role, pings, gated, preamble, tuple(ch.choices())))
             st.states.add(key)
             evs = [t[0] for t in o.get("trace", [])]
             if any("close" in e or "eof" in e for e in evs):
@@ -288,10 +322,11 @@ class C16(Check):
                            "notified": o["closes"]})
             for sig, msg in judge(role, pings, o):
                 st.violation("%s:%s" % (role, sig), "role=%s pings=%r gated=%r schedule %r: %s" % (role, pings, gated, evs, msg),
-                             {"role": role, "pings": pings, "gated": gated, "depth": depth, "choices": ch.choices()})
+                             {"role": role, "pings": pings, "gated": gated, "depth": depth, "choices": ch.choices(),
+                              "preamble": list(preamble)})
         # partition on the first choice: explore only schedules starting with `first`
         probe = devex.Chooser()
-        run(probe, role, pings, gated, 1)
+        run(probe, role, pings, gated, 1, preamble)
         n0 = probe.trace[0][0] if probe.trace else 0
         if first >= n0:
             return
@@ -299,7 +334,8 @@ class C16(Check):
         st.setmax("depth", depth)
 
     def replay(self, case):
-        o = run(devex.Chooser(case["choices"]), case["role"], case["pings"], case["gated"], case["depth"])
+        o = run(devex.Chooser(case["choices"]), case["role"], case["pings"], case["gated"], case["depth"],
+                tuple(case.get("preamble", ())))
         return "%r\nverdict %r" % (o, judge(case["role"], case["pings"], o))
 
 
